@@ -54,3 +54,18 @@ CHECKS["C09"] = {
 }
 for _p in ("C07", "C08", "C09"):
     NOT_APPLICABLE.pop(_p, None)
+
+CHECKS["C19"] = {
+    "category": "proof",
+    "text": ("All 14 click command bodies (cls, fit, inspect, prune, rename, combine, digest, sort, patchset extract/apply/verify/inspect, xml2json, "
+             "json2xml) are executed symbolically on the current source with opaque option values and uninterpreted, logged library calls. "
+             "Per command: every option reaches the library parameter it documents (term identity, or data dependence without cross-wiring for "
+             "derived values), every option is used on every successful path (this obligation found `inspect --measurement` being ignored, "
+             "repaired by a fix: commit), the library call is on every successful path, no try/except swallows a library exception, backend and "
+             "optimiser are set before the inference call (all 7 backend spellings x 2 optimisers), file and stdout branches serialise the same "
+             "object with the same indent/sort_keys, and the emitted object is the library result."),
+    "note": ("click's own parsing is assumed; loops over option tuples are executed once with a generic element (dataflow abstraction); the "
+             "library calls are uninterpreted here (their values are C05-C09/C16-C18); options_from_eqdelimstring string handling not covered"),
+    "technique": "contract-based deductive verification: symbolic execution of the real command bodies, forwarding/dataflow obligations over logged uninterpreted calls; CliRunner replay",
+}
+NOT_APPLICABLE.pop("C19", None)
